@@ -194,7 +194,10 @@ fn build_charge_prog(e: &mut Ent) -> (Prog, u32) {
     }
     lf.extend(encode(&Insn::Rts));
     let bus = if e.chance(1, 2) { distinct_cfg(e) } else { e.bus_cfg() };
-    (Prog { image: vec![(code, c), (leaf, lf)], er, ccr: e.u8(), pc: code, bus }, stop)
+    let mut image = vec![(code, c), (leaf, lf)];
+    let ccr = e.u8();
+    image.extend(e.env_noise());
+    (Prog { image, er, ccr, pc: code, bus }, stop)
 }
 
 /// Ok((instructions compared, setting changes, instructions after an I/O lookup)) or the violation
